@@ -47,6 +47,8 @@ class Verifier:
         self.log_domain = False
         self.vacuity_alarms = []
         self.extra_requires = []
+        self.mid_write_hook = None
+        self.feas_cache = {}
         self._spec_cache = {}
         self._loop_ord = {}
         self.covers = set()
@@ -82,6 +84,13 @@ class Verifier:
 
     def loop_ordinal(self, node):
         return self._loop_ord[id(node)]
+
+    def new_version(self, I):
+        """the content being written by the call under verification"""
+        if "new_version" not in I.ghost:
+            v = I.fresh_const("NEWVER", z3.IntSort())
+            I.ghost["new_version"] = v
+        return I.ghost["new_version"]
 
     def note_cover(self, name):
         self.covers.add(name)
